@@ -849,6 +849,16 @@ def build_closure_contracts(ex, with_variants=True):
                       locals={'worker': abs_worker('worker'), 'more_data': 'bool'}),
               1: Loop(invariant=INV + [conservation_kept, closed_monotone, ret_unchanged, no_answers, never_loses_negative, J_round, refused_sticky, depleted_kept], modifies=MODS,
                       locals={'more_data': 'bool'}, on_bind=settle_current)})
+    # the same function against its J-free contract (loop contracts that do not depend on the shape of the iteration): kept as a lemma of its own so that
+    # a refactoring of first_enqueue's loops that leaves the J-carrying proof undecided is still checked for Inv / conservation / the callee preconditions
+    lf = cons['first_enqueue']
+    plain = [x for x in INV]
+    extra = [conservation_kept, closed_monotone, ret_unchanged, no_answers, never_loses_negative]
+    lf0 = Contract(lf.func, lid='Lf0', name='C07.Lf0 first_enqueue keeps Inv and loses no input (shape-independent part)', closure_env=closure_env, self_class=P,
+                   setup=with_poolenv(), requires=plain, ensures=plain + extra, returns='none', modifies=MODS, raises={}, raises_only=[], options=dict(OPTIONS),
+                   loops={0: Loop(invariant=plain + extra, modifies=MODS, locals={'worker': abs_worker('worker'), 'more_data': 'bool'}),
+                          1: Loop(invariant=plain + extra, modifies=MODS, locals={'more_data': 'bool', 'worker': abs_worker('worker')})})
+    cons['first_enqueue0'] = lf0
     for n in ('get_next_idle_worker', 'try_enqueue', 'handle_death', 'handle_new_result', 'first_enqueue'):
         ex.use_contract.add(f'{RUN}.<{n}>')
     return cons
